@@ -68,7 +68,7 @@ def cases(tier, seed, ctx=None):
                 yield mk_case(rng, r, len(body), b"", rng.partition(stream[:cut]), pol, later, 0, env, "short-" + name)
                 # ... and then half-closes or resets: the end of the body must NOT be announced
                 c2 = mk_case(rng, r, len(body), b"", rng.partition(stream[:cut]), pol, later, 0, env, "short-fin-" + name)
-                c2[1][1] = c2[1][1] + [rng.choice([G.PeerFin, G.PeerFin, G.PeerDrop]), G.Turn]
+                c2[1][1] = c2[1][1][:-2] + [rng.choice([G.PeerFin, G.PeerFin, G.PeerDrop]), G.Turn] + c2[1][1][-2:]      # before the final drain
                 yield c2
     # exhaustive segmentation of the region around the blank line and a short body
     small = {"head": b"POST /p HTTP/1.1\r\nContent-Length: 3", "raw": b"/p"}
